@@ -72,3 +72,6 @@ Proof. exact fragment_format_fixpoint. Qed.
 Print Assumptions C03_fragment_fixpoint.
 Print Assumptions C03_refuted.
 Print Assumptions C03_format_is_a_function.
+Print Assumptions C03_refuted_statement_starts_with_prefix_operator.
+Print Assumptions C03_refuted_comment_in_expression_position.
+Print Assumptions C03_refuted_bare_return_followed_by_statement.
